@@ -14,6 +14,8 @@ import subprocess
 import sys
 import tempfile
 
+VERIF = os.path.dirname(os.path.dirname(os.path.abspath(__file__)))     # the tree this script lives in (a builder worktree evaluates itself)
+
 d, k = sys.argv[1], sys.argv[2]
 note = json.load(open(os.path.join(d, "note_%s.json" % k)))
 checks = [note["property"]]
@@ -55,10 +57,10 @@ try:
     if res["equivalent"]:
         os.remove(os.path.join(wt, "equiv.py"))
         coqcopy = wt + "_coq"
-        sh("rsync -a --exclude cases /verif/coq/ %s/" % coqcopy)
+        sh("rsync -a --exclude cases %s/coq/ %s/" % (VERIF, coqcopy))
         os.makedirs(wt + "_out", exist_ok=True)
         for c in checks:
-            rc, out = sh("PCFG_REPO=%s PCFG_COQ=%s PCFG_OUT=%s ./check %s --tier quick" % (wt, coqcopy, wt + "_out", c), "/verif", 3600)
+            rc, out = sh("PCFG_REPO=%s PCFG_COQ=%s PCFG_OUT=%s ./check %s --tier quick" % (wt, coqcopy, wt + "_out", c), VERIF, 3600)
             lines = [l for l in out.split("\n") if l.startswith("VIOLATION") or l.startswith("  no longer checks") or " obligations" in l]
             why = ""
             rp = os.path.join(wt + "_out", "replays", "%s_broken.json" % c)
